@@ -885,8 +885,42 @@ fn directed_cases() -> Vec<Case> {
         vec!["@lune/**"],
         "excluded",
     ));
+    // many modules in one bundle (the names of the accessors are generated: 53 one-character names, then longer ones,
+    // some of which are keywords or start with a digit)
+    for (n, mode) in [(60usize, ModeCfg::path()), (60, ModeCfg::luau()), (130, ModeCfg::path()), (320, ModeCfg::path())] {
+        let mut files: Vec<(String, String)> = vec![];
+        let mut main = String::from("local sum = 0\n");
+        for i in 0..n {
+            main.push_str(&format!("sum = sum + require({})\n", q(&format!("./m{}", i))));
+            files.push((format!("p/src/m{}.lua", i), format!("return {}", i + 1)));
+        }
+        main.push_str("return { sum, RUNS }");
+        files.push(("p/src/main.lua".to_string(), main));
+        let fv: Vec<(&str, String)> = files.iter().map(|(p, t)| (p.as_str(), t.clone())).collect();
+        v.push(mk(fv, mode, vec![], "many-modules"));
+    }
+    // the content of data files, value by value
+    for (i, (ext, doc, lua)) in DATA_VALUE_DOCS.iter().enumerate() {
+        let path = format!("p/src/data{}.{}", i, ext);
+        let mut m = BTreeMap::new();
+        m.insert("p/src/main.lua".to_string(), json!({"text": format!("local d = require({})\nlocal function plain(v, depth)\n  if type(v) ~= \"table\" or depth > 5 then return v end\n  local c = {{}}\n  for k, x in pairs(v) do c[k] = plain(x, depth + 1) end\n  return c\nend\nreturn {{ plain(d, 0) }}", q(&format!("./data{}.{}", i, ext)))}));
+        m.insert(path, json!({"text": doc, "lua": lua}));
+        v.push(json!({"kind": "directed", "what": "data-content", "project": "p", "entry": "p/src/main.lua", "mode": ModeCfg::path().to_json(), "files": m, "excludes": [], "generator": if i % 2 == 0 { "'dense'" } else { "'retain_lines'" }, "rules": [], "modules_identifier": null}));
+    }
     v
 }
+
+/// data documents whose every value is compared (numbers of every kind the formats can write)
+const DATA_VALUE_DOCS: [(&str, &str, &str); 8] = [
+    ("json", "{\"neg\": -5, \"zero\": 0, \"big\": 9007199254740993, \"minus_big\": -9007199254740993, \"float\": -1.5, \"exp\": 1e21, \"list\": [-1, -2147483649, 4294967296], \"s\": \"x\"}", "{neg=-5, zero=0, big=9007199254740993, minus_big=-9007199254740993, float=-1.5, exp=1e21, list={-1, -2147483649, 4294967296}, s=\"x\"}"),
+    ("json", "[-9223372036854775808, 9223372036854775807, 18446744073709551615, -0.0, 0.1]", "{-9223372036854775808, 9223372036854775807, 18446744073709551615, -0.0, 0.1}"),
+    ("json5", "{ neg: -7, hex: 0x10, plus: +3, frac: .5, list: [-1, 2,], q: 'it\\'s' }", "{neg=-7, hex=16, plus=3, frac=0.5, list={-1, 2}, q=\"it's\"}"),
+    ("yaml", "neg: -12\nfloat: -0.25\nlist:\n  - -3\n  - 4\ntext: \"-5\"\nnothing: ~\n", "{neg=-12, float=-0.25, list={-3, 4}, text=\"-5\"}"),
+    ("yml", "- -1\n- 0\n- 1e3\n- true\n", "{-1, 0, 1000, true}"),
+    ("toml", "neg = -42\nfloat = -0.5\nlist = [-1, 2, -3]\n[t]\nmin = -9223372036854775808\n", "{neg=-42, float=-0.5, list={-1, 2, -3}, t={min=-9223372036854775808}}"),
+    ("toml", "a = [[-1, 1], [0]]\nb = 1_000\n", "{a={{-1, 1}, {0}}, b=1000}"),
+    ("txt", "-5\n", "\"-5\\n\""),
+];
 
 // ------------------------------------------------------------------------------------------
 
